@@ -130,8 +130,16 @@ NOT_APPLICABLE = [
 
 def main():
     checks = []
+    sys.path.insert(0, HERE)
+    from cv import suiterun
     for pid in sorted(CHECKS):
-        c = CHECKS[pid]
+        c = dict(CHECKS[pid])
+        if pid in suiterun.EVALS:
+            c["text"] += (" Second workload in both tiers: the repository's own test-suite executed with this property's monitor armed on the real"
+                          " classes/functions (cv/suitemon.py through the pytest plugin cv/suiteplugin.py; quick: selected test directories, thorough: the whole"
+                          " suite); only what the monitor records counts, the tests' own outcomes do not; the shard is inconclusive when the monitor was evaluated"
+                          " fewer than 20 times.")
+            c["technique"] += " + the same monitor armed under the repository's own test-suite"
         checks.append({
             "property_id": pid,
             "quick_cmd": f"./check {pid} quick",
